@@ -15,6 +15,14 @@ def J(test, quick, thorough, shards=1, **kw):
     return d
 
 
+def GF(test, seconds, procs=8, **kw):
+    """Native Go fuzzing of the property behind <test> (thorough tier only; `seconds` wall clock, not pinned to VERIF_SEED)."""
+    d = dict(test="gofuzz:" + test, fuzz_test=test, quick=0, thorough=seconds, shards=1, kind="gofuzz", procs=procs, tiers=("thorough",),
+             timeout_thorough=seconds + 900)
+    d.update(kw)
+    return d
+
+
 PROPS = {}
 
 PROPS["C14"] = dict(
@@ -30,6 +38,7 @@ PROPS["C14"] = dict(
         J("TestC14_Stream", 600, 60000, shards=14),
         J("TestC14_EveryOffset", 2, 12, shards=8),
         J("TestC14_Invalid", 600, 60000, shards=4),
+        GF("TestC14_Stream", 60),
     ],
 )
 
@@ -49,6 +58,7 @@ PROPS["C13"] = dict(
         J("TestC13_KMACParams", 1500, 40000, shards=6),
         J("TestC13_KMACEveryKeyLen", 2, 10, shards=4),
         J("TestC13_KMACInvalid", 500, 20000, shards=2),
+        GF("TestC13_History", 60),
     ],
 )
 
@@ -132,6 +142,7 @@ PROPS["C05"] = dict(
         J("TestC05_ECDSAPublic", 2000, 40000, shards=4),
         J("TestC05_Produced", 400, 6000, shards=3),
         J("TestC05_Enumerations", 3, 12, shards=4),
+        GF("TestC05_ECDSAPublic", 60), GF("TestC05_ECDSAPrivate", 30),
         J("cfuzz:SER_E1", 150000, 240, kind="cfuzz", target="SER_E1", env={"VERIF_CFUZZ_FORK": "5"}),
         J("cfuzz:SER_E2", 100000, 240, kind="cfuzz", target="SER_E2", env={"VERIF_CFUZZ_FORK": "5"}),
         J("cfuzz:SER_FR", 150000, 120, kind="cfuzz", target="SER_FR", env={"VERIF_CFUZZ_FORK": "4"}),
@@ -153,6 +164,7 @@ PROPS["C06"] = dict(
         J("TestC06_Subsets", 2, 2, shards=2),
         J("TestC06_Fixed", 12, 150, shards=4),
         J("TestC06_Errors", 200, 5000, shards=1),
+        GF("TestC06_BadShare", 90),
     ],
 )
 
@@ -170,6 +182,7 @@ PROPS["C11"] = dict(
         J("TestC11_Exact", 500, 6000, shards=14),
         J("TestC11_Hasher", 2000, 100000, shards=1),
         J("TestC11_CraftedSmallS", 600, 20000, shards=3),
+        GF("TestC11_Exact", 90),
     ],
 )
 
@@ -256,7 +269,7 @@ PROPS["C07"] = dict(
           "(every 5th case, always in thorough) group key and all public shares on one polynomial of degree <= t by Lagrange interpolation in G2 with the oracle, and t+1 honest participants reconstruct a signature valid under the group key. "
           "Non-trivial = a Byzantine participant performed a non-honest action and the delivery order was not FIFO; distinct by draw-record hash."),
     assumptions=BLS_ASSUME[:1] + ["the assumptions of the statement: round-synchronous delivery, reliable broadcast, at most t Byzantine participants", "Joint-Feldman: the disqualified set of a participant is read from its Disqualify callbacks; single-dealer protocol: from the End verdict"],
-    jobs=[J("TestC07_Agreement", 1000, 4000, shards=16)],
+    jobs=[J("TestC07_Agreement", 1000, 4000, shards=16), GF("TestC07_Agreement", 150, procs=16)],
 )
 
 PROPS["C08"] = dict(
@@ -266,7 +279,7 @@ PROPS["C08"] = dict(
           "or who left an honest complaint unanswered or answered it with a value not matching its vector, is disqualified by every honest participant; (g) plain Feldman VSS: every delivery order of (vector, share, one duplicate of each) x every kind of vector and share: End returns keys iff the first vector is valid (oracle) and the first share is well-formed and matches it, otherwise a DKG-failure error. "
           "Non-trivial = Byzantine non-honest action and non-FIFO delivery (simulator) / an invalid or inconsistent dealing (plain VSS); distinct by draw-record hash / by construction."),
     assumptions=BLS_ASSUME[:1] + ["the assumptions of the statement: round-synchronous delivery, reliable broadcast, at most t Byzantine participants"],
-    jobs=[J("TestC08_Fairness", 1000, 5000, shards=14), J("TestC08_PlainVSS", 2, 12, shards=6)],
+    jobs=[J("TestC08_Fairness", 1000, 5000, shards=14), J("TestC08_PlainVSS", 2, 12, shards=6), GF("TestC08_Fairness", 150, procs=16)],
 )
 
 PROPS["C10"] = dict(
@@ -277,7 +290,7 @@ PROPS["C10"] = dict(
           "Oracle 2 (non-interference, metamorphic): a twin instance receives only the calls the model accepts; the instance that additionally received the rejected calls must emit the same messages and callbacks and end with the same End result. Both are driven to End and re-checked after End. "
           "Non-trivial = the sequence contains a call rejected for a state or index reason while running; distinct by draw-record hash."),
     assumptions=["Start after End and Start with a too-short seed are outside the quantifier (documentation asks for a new instance per run)"],
-    jobs=[J("TestC10_StateMachine", 4000, 50000, shards=16)],
+    jobs=[J("TestC10_StateMachine", 4000, 50000, shards=16), GF("TestC10_StateMachine", 120, procs=16)],
 )
 
 PROPS["C09"] = dict(
@@ -294,7 +307,8 @@ PROPS["C09"] = dict(
           J("cfuzz:SUM_VECTOR", 30000, 240, kind="cfuzz", target="SUM_VECTOR"),
           J("cfuzz:LAGRANGE", 40000, 240, kind="cfuzz", target="LAGRANGE"),
           J("cfuzz:G2_VECTOR", 30000, 240, kind="cfuzz", target="G2_VECTOR"),
-          J("cfuzz:VERIFY", 4000, 300, kind="cfuzz", target="VERIFY")],
+          J("cfuzz:VERIFY", 4000, 300, kind="cfuzz", target="VERIFY"),
+          GF("TestC09_Calls", 90, journal=True), GF("TestC09_DKGNetwork", 90, journal=True)],
 )
 
 PROPS["C18"] = dict(
@@ -323,6 +337,7 @@ PROPS["C19"] = dict(
 import c15_overlay
 import c20_build
 import cfuzz
+import gofuzz
 import json as _json
 import os as _os
 
@@ -338,7 +353,13 @@ def _f1_known(verif):
     return any(k.get("id") == "F1" and k.get("status") == "known" for k in ks)
 
 
+GOFUZZ_PROPS = sorted(p for p, spec in PROPS.items() if any(j.get("kind") == "gofuzz" for j in spec["jobs"]))
+MODFILE_ARGS = lambda: []  # set by ./check (a -modfile redirecting the replace to VERIF_REPO)
+
+
 def custom_command(job, tier, n, seed, rundir, repo, verif, work):
+    if job.get("kind") == "gofuzz":
+        return gofuzz.command(job, tier, n, seed, rundir, repo, verif, work)
     if job.get("kind") == "cfuzz":
         return cfuzz.command(job, tier, n, seed, rundir, repo, verif, work)
     if job.get("kind") == "c15":
@@ -347,6 +368,9 @@ def custom_command(job, tier, n, seed, rundir, repo, verif, work):
 
 
 def custom_build(pid, tier, repo, verif, work, goenv, log):
+    if tier == "thorough" and pid in GOFUZZ_PROPS:
+        if gofuzz.build(repo, verif, work, goenv, log, MODFILE_ARGS()) is None:
+            return False
     if pid in CFUZZ_TARGETS:
         return cfuzz.build(CFUZZ_TARGETS[pid], repo, verif, work, goenv, log, _f1_known(verif)) is not None
     if pid == "C20":
@@ -362,6 +386,11 @@ def custom_setup(repo, verif, work, goenv, log):
 
 
 def custom_replay(pid, path, repo, verif, work, goenv, log):
+    base = _os.path.basename(path)
+    if base.startswith("artefact-gofuzz-"):
+        test = base[len("artefact-gofuzz-"):].rsplit("-", 1)[0]
+        plain = _os.path.join(work, "bin", "props-plain-%s.test" % ("repo" if repo == "/repo" else __import__("hashlib").sha1(repo.encode()).hexdigest()[:8]))
+        return gofuzz.replay(path, test, repo, verif, work, goenv, log, plain)
     if pid in CFUZZ_TARGETS and "artefact-" in _os.path.basename(path):
         return cfuzz.replay(path, repo, verif, work, goenv, log)
     if pid == "C15":
